@@ -51,6 +51,7 @@ class Outcome(object):
         self.paths = 0
         self.solver_s = 0.0
         self.unsupported = 0
+        self.marked = 0   # paths on which text was made from a symbolic number
 
     def merge_stats(self, ctx):
         self.queries += ctx.stats["queries"]
@@ -83,6 +84,8 @@ def explore_and_prove(fn, assumptions, goal_of, max_paths=5000, timeout_ms=20000
     try:
         for p in ctx.iter_paths(fn):
             g = goal_of(p)
+            if "str" in p.notes:
+                out.marked += 1
             if g is None:
                 continue
             out.obligations += 1
@@ -112,12 +115,18 @@ def explore_and_prove(fn, assumptions, goal_of, max_paths=5000, timeout_ms=20000
     return out
 
 
+def soft_path(p):
+    """a failing path whose verdict may be an artefact of the number wrapper: it ended in a wrapper exception, or text was made from a
+    symbolic number on the way (the result may depend on digits the wrapper does not model)"""
+    return bool(wrapper_exc(p.value) or "str" in (p.notes or ()))
+
+
 def twin_verdict(o):
     """reachability twin: 'violated' (good), 'passed' (the obligation is vacuous => harness error) or 'unknown' (the twin run was cut
     short by its deadline / solver unknowns before it met a failing path: says nothing)"""
     if o.failed:
         return "violated"
-    return "unknown" if o.inconclusive else "passed"
+    return "unknown" if (o.inconclusive or getattr(o, "marked", 0)) else "passed"
 
 
 def twin_violated(fn, assumptions, goal_of, **kw):
